@@ -19,7 +19,7 @@ def sh(cmd, cwd=None, env=None, timeout=3600):
 
 def work(args):
     k, items = args
-    wt = "/tmp/confirm_wt_%d" % k
+    wt = "/tmp/confirm_wt_%d_%d" % (os.getpid(), k)
     out = []
     for d in items:
         name = os.path.basename(d)
@@ -27,6 +27,8 @@ def work(args):
         scratch = "/tmp/confirm_scratch_%d" % k
         shutil.rmtree(scratch, ignore_errors=True)
         os.makedirs(scratch)
+        if not os.path.isdir(os.path.join(wt, "tests")):
+            sh("git -C /repo worktree prune; rm -rf %s; git -C /repo worktree add --detach %s HEAD" % (wt, wt))
         sh("git checkout -- . && git clean -fdxq", cwd=wt)
         rc0, o0 = sh("/venv/bin/python %s/demo.py" % d, cwd=scratch, env=env, timeout=900)
         rca, oa = sh("git apply %s/patch.diff" % d, cwd=wt)
@@ -60,7 +62,7 @@ def work(args):
 
 chunks = [(k, cands[k::NW]) for k in range(NW)]
 for k in range(NW):      # worktrees are created one after the other (concurrent `git worktree add` calls collide on the lock)
-    wt = "/tmp/confirm_wt_%d" % k
+    wt = "/tmp/confirm_wt_%d_%d" % (os.getpid(), k)
     sh("git -C /repo worktree remove --force %s; git -C /repo worktree prune; git -C /repo worktree add --detach %s HEAD" % (wt, wt))
 with ThreadPoolExecutor(NW) as ex:
     allres = [r for part in ex.map(work, chunks) for r in part]
